@@ -1,20 +1,43 @@
 """Configuration of the C20 check (see lib/props.py)."""
 P = {'id': 'C20',
  'level': 'proof',
- 'theorems': ['mag_cmp_correct_thm', 'decimal_strcmp_correct', 'decimal_antisym', 'decimal_trans'],
- 'trusted': ['modelled (M+S): src/string/numeric_compare.rs (decimal_strcmp, realnum_strcmp and helpers) as byte-list functions',
-             'spec-only cells (direct oracle against std, no mechanism model): FastStr, join*, JoinBuilder, words, SortedVecLexIterator, LineProcessor, '
-             'LineSplitter, ASCII case conversion'],
- 'assumptions': ['the realnum comparator is modelled and differentially checked but its value theorem is not yet proved (exhaustive oracle up to length 3/4 '
-                 'stands in)',
-                 'agreement of model and code is established on the generated cases only'],
- 'level_text': 'Machine-checked Coq theorems that the decimal string comparator, as written, equals comparison of the denoted integers for all strings of any '
-               'length (leading zeros, signs, signed zero), returns None exactly on invalid input, and is antisymmetric and transitive; the model (decimal and '
-               'real comparators) is tied to the code by evaluating thousands of cases in Coq on every run; the remaining cells (FastStr, join/split, words, '
-               'lines, lexicographic iterator, case conversion, realnum value semantics) are decided by an exhaustive/generated differential oracle against '
-               'std and exact integer arithmetic, which is weaker than proof and labelled S-only in the evidence.',
- 'level_note': 'Trusted: Coq kernel + vm_compute; hand-written model; harness oracle (exact i128 arithmetic for numeric values, std slice/str operations). Not '
-               'modelled: SIMD paths of FastStr (hash/compare), streaming iterator, SortableStrVec (shared with C10).',
- 'technique': 'Coq proof (digit-string induction, nia) for the decimal comparator + model/implementation differential check by vm_compute + exhaustive '
-              'small-universe oracle for the other cells',
- 'explanation': 'Unbounded theorems for the decimal comparator; differential + exhaustive oracle for the rest.'}
+ 'theorems': ['mag_cmp_correct_thm', 'decimal_strcmp_correct', 'decimal_antisym', 'decimal_trans',
+              'realnum_strcmp_correct', 'realnum_antisym', 'realnum_trans', 'realnum_le_trans',
+              'join_is_intercalate', 'join_iter_is_intercalate', 'join_length',
+              'split_join', 'join_split', 'split_fields_clean', 'fs_split_spec', 'fs_split_join',
+              'lines_unlines', 'words_are_maximal_runs',
+              'case_maps', 'to_lower_bmi2_is_map', 'to_upper_bmi2_is_map', 'case_length',
+              'lex_seek_lower_bound_spec', 'lex_seek_upper_bound_spec', 'lex_enumerate_all',
+              'lex_lower_bound_walk', 'lex_upper_bound_walk'],
+ 'trusted': ['modelled (M+S): src/string/numeric_compare.rs (decimal_strcmp, realnum_strcmp and helpers); src/string/join.rs (join/join_str/join_fast_str/'
+             'JoinBuilder::build as one loop, join_iter/join_bytes_iter as the first-flag loop); LineSplitter::split_optimized and FastStr::split '
+             '(SplitIter) ; WordIterator; LineProcessor::read_next_line/process_lines in the default configuration (BufRead::read_line is part of the model); '
+             'Bmi2StringProcessor::to_{lower,upper}case_ascii_bmi2 (u64 chunk path with BEXTR/shift/or and the scalar remainder); SortedVecLexIterator '
+             '(next/prev/seek_start/seek_end/binary_search_by/seek_lower_bound and the trait-default seek_upper_bound) -- all as byte-list functions',
+             'spec-only cells (direct oracle against std, no mechanism model): FastStr (eq/ord/hash coherence/find/slicing), StreamingLexIterator, '
+             'SortableStrVec, ZoSortedStrVec, unicode.rs (UTF-8 validation/iteration, Unicode case wrappers), LineProcessor non-default configurations, '
+             'batches and split_lines_by, word-boundary helper functions',
+             'std is trusted where the code delegates to it: str::split in LineSplitter simple strategy (tied to split_opt by cases), slice cmp/starts_with/'
+             'ends_with in FastStr'],
+ 'assumptions': ['strings are lists of bytes < 256; usize arithmetic does not overflow for in-memory strings',
+                 'agreement of model and code is established on the generated cases only (about 4000 per quick run, evaluated inside Coq)'],
+ 'level_text': 'Machine-checked Coq theorems, for inputs of any length: decimal_strcmp and realnum_strcmp, as written, equal comparison of the denoted '
+               'integers / rationals (signs, signed zero, leading zeros, trailing fraction zeros, "5." = "5"), return None exactly on invalid input, and are '
+               'antisymmetric and transitive (also mixed <=/< transitivity for the real comparator); every join entry point equals the straightforward '
+               'intercalation and the precomputed capacity is exact; split(join) = id for every non-empty list whose elements do not contain the separator '
+               'byte, join(split) = id for every text, FastStr::split is the plain split minus one trailing empty field; process_lines returns exactly the '
+               'lines of any text written with any mix of "\\n" and "\\r\\n" terminators (lone \\r is content) plus an unterminated tail; words are the '
+               'maximal runs of word bytes; the BMI2 chunked ASCII case conversion is the byte-wise map, length-preserving, identity outside letters, '
+               'involutive on letters; the sorted-vector lexicographic iterator enumerates every string once in order, seek_lower_bound/seek_upper_bound '
+               'position the cursor at the first string >= / > the target on every sorted list with duplicates and empty strings, and walking from there '
+               'yields exactly the strings >= / > the target. The models are tied to the code by evaluating thousands of cases in Coq on every run. FastStr, '
+               'StreamingLexIterator, SortableStrVec, ZoSortedStrVec and unicode.rs are decided by a boundary-biased/exhaustive differential oracle against '
+               'std, which is weaker than proof and labelled S-only in the evidence.',
+ 'level_note': 'Trusted: Coq kernel + vm_compute; hand-written models; harness oracle (exact i128 arithmetic for numeric values, std slice/str operations). Not '
+               'modelled: SIMD hash/compare paths of FastStr (oracle: hash/eq coherence over 24 alignments x lengths 0..130 x every constructor), radix and '
+               'block-search paths of SortableStrVec, the rank/select layout of ZoSortedStrVec (shared with C04).',
+ 'technique': 'Coq proof (digit-string induction + nia for the comparators; list induction, fuelled loops and a binary-search invariant for the string models; '
+              'bit-field arithmetic by lia for the u64 chunk path) + model/implementation differential check by vm_compute + exhaustive/generated oracle for '
+              'the spec-only cells',
+ 'explanation': 'Unbounded theorems for both numeric comparators, join/split, line splitting, words, ASCII case maps and the sorted-vector lexicographic '
+                'iterator; differential + exhaustive oracle for FastStr and the remaining containers.'}
